@@ -14,6 +14,8 @@ PARAM_LEAVES = {
     "elist": [], "etuple": [], "edict": [], "none": [],
     "int": [("p1", "int")],
     "str": [("p2", "str")],
+    # values the class translation would turn into a list / dictionary: still not parameter containers
+    "set": [], "fset": [], "bean": [("p1", "int")], "object": [],
     "fault": [("fcode", "int"), ("fmsg", "str")],
     "fault_data": [("fcode", "int"), ("fmsg", "str"), ("fdata", "int")],
 }
